@@ -1,3 +1,6 @@
 import TxV.Util.Hex
 import TxV.Util.AuditCmd
+import TxV.Props.C01
+import TxV.Props.C02
+import TxV.Props.C03
 import TxV.Props.C12
